@@ -48,8 +48,10 @@ Inductive loc := LIn | LSub (root : N).    (* [storage] use_cache_subfolder_for_
                                               where <root> is filesystem_cache_folder, or filesystem_folder when that is empty *)
 Inductive lockmode := LkR | LkW.           (* self._storage._lock.locked *)
 
-Record cfg := mkCfg { g_mode : kmode; g_loc : loc; g_ver : N; g_skip : bool }.
-(* g_ver: storage.CACHE_VERSION (an id);  g_skip: [storage] skip_broken_item *)
+Record cfg := mkCfg { g_mode : kmode; g_loc : loc; g_ver : N; g_skip : bool; g_cw : bool }.
+(* g_ver: storage.CACHE_VERSION (an id);  g_skip: [storage] skip_broken_item;
+   g_cw: the cache location can be written (false: every write of an entry by _get fails with an OSError -- disk full,
+   quota, read-only file system; get.py then serves the freshly built content without storing it) *)
 
 Inductive ckey :=
 | KHash (v : N) (b : content)              (* _item_cache_hash: sha256(CACHE_VERSION + raw_text).hexdigest() *)
@@ -119,7 +121,7 @@ Section Model.
 
   (* ---------------------------------------------------------------- get.py 55-140  _get *)
   Inductive gres := GAbsent | GItem (d : D) | GSkip | GFail.
-  Inductive ev := EvHit | EvMiss | EvHit2 | EvStore (k : ckey) | EvClean | EvBroken | EvRaise.
+  Inductive ev := EvHit | EvMiss | EvHit2 | EvStore (k : ckey) | EvClean | EvBroken | EvRaise | EvStoreFail.
   Record gout := mkGout { o_res : gres; o_cache : cache; o_cleaned : bool; o_evs : list ev }.
 
   (* [ca] is the cache at the first lookup, [ca2] the cache when the cache lock has been taken (another reader may
@@ -143,9 +145,11 @@ Section Model.
           match derive (g_ver g) (f_bytes f) with
           | None => mkGout (if g_skip g then GSkip else GFail) cb cleaned [EvMiss; EvBroken]
           | Some d =>
-            let c3 := store_item_cache g cb c h key d in
-            if cleaned then mkGout (GItem d) c3 true [EvMiss; EvStore key]
-            else mkGout (GItem d) (clean_item_cache g fs c3 c) true [EvMiss; EvStore key; EvClean]
+            (* try: _store_item_cache(...)  except OSError: cache_content = self._item_cache_content(temp_item) *)
+            let c3 := if g_cw g then store_item_cache g cb c h key d else cb in
+            let e3 := if g_cw g then EvStore key else EvStoreFail in
+            if cleaned then mkGout (GItem d) c3 true [EvMiss; e3]
+            else mkGout (GItem d) (clean_item_cache g fs c3 c) true [EvMiss; e3; EvClean]
           end
         end
       end
